@@ -74,6 +74,18 @@ def scenarios(ctx, n):
             # keep the rest of the status line in one piece with its LF so that no further request data is due before the decision
             for piece in pieces:
                 ops.append("S" + piece.hex())
+        elif kind == "http" and not (200 <= status <= 299) and status != 101 and b"Content-Length" in res and rng.random() < 0.35:
+            # the capture delivers the beginning of the NEXT response in the same segment as the refusal, before the client's next request has been
+            # offered (directions are reassembled independently): the response side must stop at the end of the refused CONNECT (DATA_OTHER, consumed =
+            # the refusal) and the caller re-offers the rest after the request side has caught up. Both with the CONNECT head alone in its chunk (request
+            # side NOT suspended, in_status DATA) and glued to the follow-up (suspended, DATA_OTHER).
+            # (at least the complete next status line: with less, RES_FINALIZE's look-ahead buffers the partial line and reports DATA, and a static
+            #  schedule that re-offers the rest from its beginning would then offer those bytes twice)
+            early = follow_res[:rng.randint(follow_res.index(b"\n") + 1, len(follow_res))] if follow_res else b""
+            whole = res + early
+            pts = [q for q in sconnp.split_points(whole, rng, rng.choice(["whole", "random"])) if q < len(res)]
+            for piece in sconnp.cut(whole, pts):
+                ops.append("S" + piece.hex())
         else:
             for piece in sconnp.cut(res, sconnp.split_points(res, rng, rng.choice(["whole", "random"]))):
                 ops.append("S" + piece.hex())
